@@ -116,6 +116,16 @@ theorem C17_program_complete {ord : Order} (ho : OrderOK ord) (dfs : Call → St
   exact ⟨k, ys, h1, h4⟩
 
 
+/-- LABELLING PARTITIONS THE SOLUTIONS: for a variable with a stored domain, every valuation the state
+    describes gives the variable exactly one of the values `force_ans` enumerates — so every solution lies in
+    exactly one of the branches `x == k`, and (`C17_unify_exact`) that branch's state describes exactly the
+    solutions with `x = k`: labelling one variable neither loses nor duplicates a solution. -/
+theorem C17_label_partition (st : State) (w : WFS st) (x : Nat) (d : FD) (h : st.dget x = some d)
+    (γ : Subst) (hs : Sem NoI γ st) :
+    ∃ k, (k ∈ d.iter ∧ NumAt γ (.var x) k) ∧ ∀ k', (k' ∈ d.iter ∧ NumAt γ (.var x) k') → k' = k := by
+  obtain ⟨n, hn, hnd⟩ := hs.2.2 (x, d) (dget_mem h) (fun f => f.elim)
+  refine ⟨n, ⟨(FD.iter_mem d (w.dwf _ (dget_mem h)) n).2 hnd, hn⟩, fun k' hk => numAt_unique hk.2 hn⟩
+
 section Examples
 /-- D14 witness: with `u, v ∈ -2..=2` and `w = -2` the repaired bounds keep all four solutions -/
 example : (timesBounds (-2) 2 (-2) 2 (-2) (-2)) = (.interval (-4) 4, .interval (-2) 2, .interval (-2) 2) := by decide
